@@ -121,8 +121,12 @@ class Stack(Contract):
         rank, k = case["rank"], case["k"]
         L0 = env["labels"][0]
         yield "is-dimarray", S.is_dimarray(result)
-        yield "first-dimension-is-the-new-axis", len(result.dims) == rank + 1 and result.dims[0] == NEW
-        yield "other-dimensions-are-the-inputs", sorted(result.dims[1:]) == ["x%d" % d for d in range(rank)]
+        ok = len(result.dims) == rank + 1 and result.dims[0] == NEW
+        yield "first-dimension-is-the-new-axis", ok
+        ok = ok and sorted(result.dims[1:]) == ["x%d" % d for d in range(rank)]
+        yield "other-dimensions-are-the-inputs", ok
+        if not ok:
+            return            # the remaining clauses are stated over that arrangement
         rorder = [int(nm[1:]) for nm in result.dims[1:]]
         K = result.axes[0].values
         yield "new-axis-labelled-by-the-keys", S.land(S.n(K) == k, *[S.at(K, j) == env["keys"][j] for j in range(k)])
@@ -198,7 +202,10 @@ class Concatenate(Contract):
         rank, k, d0 = case["rank"], case["k"], case["d"]
         L0 = env["labels"][0]
         yield "is-dimarray", S.is_dimarray(result)
-        yield "dimensions-are-the-inputs", sorted(result.dims) == ["x%d" % d for d in range(rank)] and len(result.dims) == rank
+        ok = sorted(result.dims) == ["x%d" % d for d in range(rank)] and len(result.dims) == rank
+        yield "dimensions-are-the-inputs", ok
+        if not ok:
+            return
         if not case["swapped"]:
             yield "dimensions-in-the-inputs-order", tuple(result.dims) == tuple("x%d" % d for d in range(rank))
         rorder = [int(nm[1:]) for nm in result.dims]
@@ -280,7 +287,10 @@ class JoinAligned(Contract):
         dims = list(result.dims)
         conc_dim = 0 if case["func"] == "concatenate" else None
         expect_dims = ["x%d" % d for d in range(rank)]
-        yield "dimensions", (dims[0] == NEW and sorted(dims[1:]) == expect_dims) if case["func"] == "stack" else sorted(dims) == expect_dims
+        ok = (dims[0] == NEW and sorted(dims[1:]) == expect_dims) if case["func"] == "stack" else sorted(dims) == expect_dims
+        yield "dimensions", ok
+        if not ok:
+            return
         out_labs = {int(nm[1:]): [float(v) for v in result.axes[nm].values] for nm in dims if nm != NEW}
         ok_axes, ok_sorted = True, True
         for d in range(rank):
